@@ -20,6 +20,10 @@ if os.path.exists(VENV_PY) and os.path.realpath(sys.executable) != os.path.realp
     os.execv(VENV_PY, [VENV_PY, *sys.argv])
 
 sys.path.insert(0, str(ROOT))
+if os.environ.get("MXLPY_REPO"):  # run the checks against another checkout of MxlPy
+    _src = os.path.join(os.environ["MXLPY_REPO"], "src")
+    sys.path.insert(0, _src)
+    os.environ["PYTHONPATH"] = _src + os.pathsep + os.environ.get("PYTHONPATH", "")
 os.environ.setdefault("PYTHONWARNINGS", "ignore")
 os.environ.setdefault("PYTHONDONTWRITEBYTECODE", "1")
 
